@@ -220,6 +220,8 @@ def tree_jobs(tier, which):
         # binary keys of differing lengths (prefix pairs), probes that are prefixes / extensions of keys
         jobs.append(Job("tree-walk-bin-U6-d%d" % (8 if X else 7), H, ["walk", 6, 8 if X else 7, 1, 1], wraps=VA_WRAPS, weight=30 if X else 8))
         jobs.append(Job("tree-walk-bin-U7-d%d" % (7 if X else 6), H, ["walk", 7, 7 if X else 6, 1, 1], wraps=VA_WRAPS, weight=30 if X else 6))
+        # a user comparator whose order is NOT the byte order (descending): whatever compares behind the comparator's back shows
+        jobs.append(Job("tree-walk-desc-U5-d%d" % (8 if X else 7), H, ["walk", 5, 8 if X else 7, 1, 2], wraps=VA_WRAPS, weight=30 if X else 8))
         if X:
             for ep in (1, 254):
                 jobs.append(Job("tree-walk-U5-d10-e%d" % ep, H, ["walk", 5, 10, ep], wraps=VA_WRAPS, weight=40))
@@ -258,7 +260,8 @@ def c02(tier, seed):
       ["model of 'a walk was left unfinished' in engines/seqmc/tree.c"],
       [need("states", 10000), need("max_depth", 200), forbid("replay_divergence")], classes=["walk:*"])
 def c03(tier, seed):
-    return tree_jobs(tier, "walk")
+    # plus the map searches over values of different sizes: each of their transitions ends with two complete walks
+    return tree_jobs(tier, "walk") + [j for j in tree_jobs(tier, "map") if j.name.endswith("-values")]
 
 
 @prop("C04", "model_checking",
